@@ -17,7 +17,7 @@ RULE = (
     "interleaving of calls on shared objects: rewrites on a working copy (copy, unwrap_nodes, group_one_qubit_gates, "
     "remove_identity, assign_noise with an empty map) and non-rewrite calls on the original (compile with either backend, "
     "noise on/off; Infidelity / TraceDistance / CircuitDepth evaluation; compare; to_openqasm; assign_noise(map); "
-    "MonteCarloNoise(...).assign_noise(); TimeReversedSolver / HybridEvolutionarySolver on a target). After every call the "
+    "MonteCarloNoise(...).assign_noise(); TimeReversedSolver / HybridEvolutionarySolver / EvolutionarySolver / AlternateTargetSolver runs on a target held as stabilizer, density matrix or graph). After every call the "
     "working copy must compile to the reference state of the original program and the original must be unchanged "
     "(openQASM text, per-register operation lists, compiled state with noise simulation off AND on), the target must denote "
     "the same state. Non-trivial = interleaving that re-uses an object after a noisy copy or a solver run was derived from "
@@ -26,7 +26,7 @@ RULE = (
 ASSUMPTIONS = ["dense reference; forced measurement settings so that compile is a function",
                "compile(circuit, initial_state=s) aliasing s is outside the statement and not asserted"]
 REQUIRED_CLASSES = {"interleave": ["rewrite:group", "rewrite:unwrap", "rewrite:rmid", "rewrite:copy", "rewrite:assign_empty",
-                                   "call:assign_noise", "call:mc", "call:solve", "call:compile", "call:metric", "reuse_after_noisy_copy", "rewrite:noisy_copy"]}
+                                   "call:assign_noise", "call:mc", "call:solve", "call:hybrid", "call:evo", "call:alt", "call:compile", "call:metric", "reuse_after_noisy_copy", "rewrite:noisy_copy"]}
 
 
 def compilers():
@@ -261,8 +261,47 @@ def check(case, sub="interleave"):
             comp = StabilizerCompiler()
             comp.measurement_determinism = 1
             if target.rep_type == "s":
-                guarded(sub, icls, HybridEvolutionarySolver, target=target, metric=Infidelity(target=target), compiler=comp)
+                from graphiq.solvers.evolutionary_solver import EvolutionarySolverSetting
+                import warnings
+
+                hs = guarded(sub, icls, HybridEvolutionarySolver, target=target, metric=Infidelity(target=target), compiler=comp,
+                             solver_setting=EvolutionarySolverSetting(n_hof=2, n_stop=2, n_pop=2))
+                hs.seed(case.get("seed", 0))
+                with warnings.catch_warnings():
+                    warnings.simplefilter("ignore")
+                    guarded(sub, icls, hs.solve)
+                derived = True
             cl.add("call:hybrid")
+        elif a == "T:evo":
+            from graphiq.backends.density_matrix.compiler import DensityMatrixCompiler
+            from graphiq.backends.stabilizer.compiler import StabilizerCompiler
+            from graphiq.solvers.evolutionary_solver import EvolutionarySolver, EvolutionarySolverSetting
+            import warnings
+
+            if target.rep_type in ("s", "dm"):
+                comp = StabilizerCompiler() if target.rep_type == "s" else DensityMatrixCompiler()
+                comp.measurement_determinism = 1
+                es = guarded(sub, icls, EvolutionarySolver, target=target, metric=Infidelity(target=target), compiler=comp, n_emitter=1,
+                             n_photon=tg["n"], solver_setting=EvolutionarySolverSetting(n_hof=2, n_stop=3, n_pop=3))
+                es.seed(case.get("seed", 0))
+                with warnings.catch_warnings():
+                    warnings.simplefilter("ignore")
+                    guarded(sub, icls, es.solve)
+                derived = True
+                cl.add("call:evo")
+        elif a == "T:alt":
+            from graphiq.solvers.alternate_target_solver import AlternateTargetSolver, AlternateTargetSolverSetting
+            import warnings
+
+            if tg["n"] >= 3:
+                np.random.seed(case.get("seed", 0))
+                setting = AlternateTargetSolverSetting(n_iso_graphs=step[1], n_lc_graphs=step[2])
+                alt = guarded(sub, icls, AlternateTargetSolver, target=target, solver_setting=setting, seed=case.get("seed", 0))
+                with warnings.catch_warnings():
+                    warnings.simplefilter("ignore")
+                    guarded(sub, icls, alt.solve)
+                derived = True
+                cl.add("call:alt")
         else:
             raise ValueError(a)
         invariants(step, kind)
@@ -298,7 +337,8 @@ def strat(tier):
         st.tuples(st.just("C:mc"), MAPSPEC).map(list),
         st.tuples(st.just("N:rewrite"), MAPSPEC, st.lists(st.sampled_from(["group", "unwrap", "rmid", "copy", "group"]), min_size=1, max_size=3)).map(list),
         st.tuples(st.just("N:rewrite"), MAPSPEC, st.lists(st.sampled_from(["group", "unwrap", "rmid", "copy", "group"]), min_size=1, max_size=3)).map(list),
-        st.just(["T:solve"]), st.just(["T:hybrid"]),
+        st.just(["T:solve"]), st.just(["T:hybrid"]), st.just(["T:evo"]),
+        st.tuples(st.just("T:alt"), st.integers(1, 2), st.integers(1, 2)).map(list),
     )
     return st.fixed_dictionaries({
         "circ": gc.st_circuit(max_q=4 if tier == "quick" else 5, max_len=20, max_c=1),
